@@ -310,7 +310,8 @@ def to_fieldcompare(M, extra_point=None, extra_cell=None):
         pd.update(extra_point)
     cd = {}
     for name, per in M["cf"].items():
-        cd[name] = [to_numpy_rows(per[t]) for t, _ in M["blocks"]]
+        cd[name] = [to_numpy_rows(per[t], dtype=np.int64 if (per[t] and isinstance(first_scalar(per[t][0]), int)) else float)
+                    for t, _ in M["blocks"]]
     if extra_cell:
         cd.update(extra_cell)
     return MeshFields(mesh, pd, cd)
